@@ -1324,8 +1324,9 @@ class DocutilsRenderer(RendererProtocol):
             if not isinstance(value, str | int | float | date | datetime):
                 try:
                     value = json.dumps(value, default=str)
-                except TypeError:
-                    # e.g. a mapping with keys that are not JSON serialisable (dates)
+                except (TypeError, ValueError):
+                    # e.g. a mapping with keys that are not JSON serialisable (dates),
+                    # or a self-referencing YAML anchor (circular reference)
                     value = str(value)
             value = str(value)
             body = nodes.paragraph()
